@@ -536,7 +536,7 @@ func (d *Downstream) isClosed() bool {
 	}
 }
 
-func (d *Downstream) resume(parentConn *Conn) error {
+func (d *Downstream) resume(parentConn *Conn, newConn *wire.ClientConn) error {
 	d.logger.Infof(d.ctx, "Downstream start resuming [%s]", d.ID)
 	if d.isClosed() {
 		return fmt.Errorf("already closed downstream")
@@ -544,7 +544,7 @@ func (d *Downstream) resume(parentConn *Conn) error {
 	if !d.state.Is(streamStatusResuming) {
 		return fmt.Errorf("invalid state want[%v] but[%v]", streamStatusResuming, d.state)
 	}
-	d.wireConn = parentConn.wireConn
+	d.wireConn = newConn
 
 	var resErr error
 	// subscribe once: a second subscription of the same alias on one wire connection is refused, so
@@ -562,7 +562,7 @@ func (d *Downstream) resume(parentConn *Conn) error {
 	}
 	var metaCh <-chan *message.DownstreamMetadata
 	if resErr == nil {
-		metaCh, err = parentConn.subscribeDownstreamMetadata(d.ctx, d.idAlias, d.Config.Filters)
+		metaCh, err = parentConn.subscribeDownstreamMetadata(d.ctx, d.wireConn, d.idAlias, d.Config.Filters)
 		if err != nil {
 			resErr = fmt.Errorf("failed to subscribeDownstreamMetadata: %w", err)
 		}
